@@ -1,4 +1,4 @@
-From Verif Require Import Model.Bytes Model.Obs Model.Replication.
+From Verif Require Import Model.Bytes Model.Obs Model.Replication Model.Reconcile.
 
 (* a case: the leader's log entries as shipped (canonical command bytes replaced by dictionary ids), the follower
    table's own log (its proposals, commands by the same ids), the leader index the follower ended with *)
@@ -12,3 +12,10 @@ Definition c05_model (c : c05case) : obs :=
   | None => OL []
   end.
 Definition c05_check (c : c05case) : bool := obs_eqb (c05_model c) (OL [oN (r_final c)]).
+
+(* the table set: the leader's listing, the follower's tables before, the follower's tables once it has settled *)
+Record rccase := { rc_leader : list N; rc_follower : list N; rc_impl : obs }.
+Fixpoint ins_sorted (a : N) (l : list N) : list N :=
+  match l with [] => [a] | b :: r => if a =? b then l else if a <? b then a :: l else b :: ins_sorted a r end.
+Definition rc_model (c : rccase) : obs := OL (map oN (fold_right ins_sorted [] (reconcile (rc_leader c) (rc_follower c)))).
+Definition rc_check (c : rccase) : bool := obs_eqb (rc_model c) (rc_impl c).
